@@ -537,7 +537,11 @@ func (c *Ctx) ruleInverseTables(rr *RuleRep) {
 		rr.Lost("pktPublish.Parse", "not found")
 		return
 	}
-	flag := p.Params[1]
+	flag, _ := parseParams(p)
+	if flag == nil {
+		rr.Lost("pktPublish.Parse", "no parameter carrying the flag byte of the fixed header")
+		return
+	}
 	maskOf := func(v ssa.Value) (int64, bool) {
 		// (publishFlag(flag) & m) != 0
 		bin, ok := v.(*ssa.BinOp)
@@ -1259,7 +1263,11 @@ func (c *Ctx) ruleInboundFields(rr *RuleRep) {
 		rr.Lost("pktPublish.Parse/unpackString", "not found")
 		return
 	}
-	contents := p.Params[2]
+	_, contents := parseParams(p)
+	if contents == nil {
+		rr.Lost("pktPublish.Parse", "no parameter carrying the bytes after the fixed header")
+		return
+	}
 	var usCall *ssa.Call
 	eachInstr(p, func(in ssa.Instruction) {
 		if c.isCallTo(in, us) {
@@ -1806,4 +1814,34 @@ func (c *Ctx) headerOperand(v ssa.Value) ssa.Value {
 		break
 	}
 	return v
+}
+
+// parseParams: the parameters of a packet parser by type — the flag nibble of the fixed header is the one
+// parameter of type byte, the remaining bytes the one parameter of type []byte.
+func parseParams(p *ssa.Function) (flag, contents *ssa.Parameter) {
+	nf, nc := 0, 0
+	for i, par := range p.Params {
+		if i == 0 && p.Signature.Recv() != nil {
+			continue
+		}
+		switch t := par.Type().(type) {
+		case *types.Basic:
+			if t.Kind() == types.Uint8 {
+				flag = par
+				nf++
+			}
+		case *types.Slice:
+			if b, ok := t.Elem().(*types.Basic); ok && b.Kind() == types.Uint8 {
+				contents = par
+				nc++
+			}
+		}
+	}
+	if nf != 1 {
+		flag = nil
+	}
+	if nc != 1 {
+		contents = nil
+	}
+	return
 }
